@@ -157,6 +157,13 @@ def corpus():
     add("same-core-diff-order", 4, [("S", [["a", "X"], ["b", "Y"]]), ("X", [["c", "d"], ["c", "c"]]),
                                     ("Y", [["c", "c"], ["c", "d"]])])
     add("knuth-lr1", 4, [("S", [["a", "A", "d"], ["a", "c", "e"], ["b", "A", "e"]]), ("A", [["c"]])])
+    add("first-chain", 3, [("S", [["Y", "A"]]), ("Y", [["a"]]), ("A", [["N", "B"]]), ("N", [["b"], []]), ("B", [["C"]]),
+                           ("C", [["c"]])])
+    add("first-chain-nullable", 4, [("S", [["Y", "A", "d"]]), ("Y", [["a"]]), ("A", [["N", "M"]]), ("N", [["b"], []]),
+                                    ("M", [["K"]]), ("K", [["c"], []])])
+    add("nullable-tail-rr", 2, [("S", [["A"]]), ("A", [["a", "A", "M", "N"], ["b"]]), ("M", [[]]), ("N", [[]])])
+    add("nullable-tail-rr3", 3, [("S", [["A"]]), ("A", [["a", "A", "M", "N", "O"], ["b"]]), ("M", [[]]), ("N", [[], ["c"]]),
+                                 ("O", [[]])])
     return C
 
 
@@ -283,6 +290,56 @@ def late_lookahead_family(rng):
     rules["S"] = alts
     g = G([(n, rules[n]) for n in order], 8, shape="late-lookahead")
     return g
+
+
+def first_chain_family(rng):
+    """FIRST behind a nullable prefix that becomes known late: a rule `A: N X` (N nullable) whose X reaches its first
+    terminal only through a chain of rules declared AFTER A (X: C; C: D; D: 'c'), or becomes nullable through such a
+    chain; A is used after a symbol that must be reduced with A's FIRST set as lookahead (S: Y A ...). A FIRST / nullable
+    computation that stops too early loses those lookaheads and a sentence is rejected."""
+    t = list(TERMS[:6])
+    rng.shuffle(t)
+    y, n, c, e, k, z = t
+    depth = rng.choice([1, 1, 2, 3])
+    nullable_chain = rng.random() < 0.4
+    chain = ["B", "C", "D", "E"][:depth + 1]
+    rules = []
+    tail = [e] if (nullable_chain or rng.random() < 0.5) else []
+    rules.append(("S", [["Y", "A"] + tail] + ([[z, "A", z]] if rng.random() < 0.3 else [])))
+    rules.append(("Y", [[y]] + ([[y, "Y"]] if rng.random() < 0.3 else [])))
+    rules.append(("A", [["N", chain[0]]]))
+    rules.append(("N", [[n], []] if rng.random() < 0.7 else [[], [n, "N"]]))
+    for i, x in enumerate(chain):
+        if i + 1 < len(chain):
+            rules.append((x, [[chain[i + 1]]]))
+        else:
+            rules.append((x, [[k], []] if nullable_chain else [[c]] + ([[c, k]] if rng.random() < 0.3 else [])))
+    if rng.random() < 0.5:
+        # declare the chain in reverse order sometimes: passes of the fixed point see it in a different order
+        head, rest = rules[:4], rules[4:]
+        rules = head + rest[::-1]
+    return G(rules, 6, shape="first-chain")
+
+
+def nullable_tail_family(rng):
+    """Productions that end in two or three nullable symbols, with (hidden) right recursion before the tail:
+    `A: 'a' A M N | 'b'; M: EMPTY; N: EMPTY | 'n'`. The right-nulled reductions of the GLR table at EVERY position of
+    the nullable tail are needed once the recursion is three or more deep."""
+    t = list(TERMS[:5])
+    rng.shuffle(t)
+    a, b, m, n, q = t
+    ntail = rng.choice([2, 2, 3])
+    tails = ["M", "N", "O"][:ntail]
+    rec = rng.choice(["right", "right", "middle"])
+    body = [a, "A"] + tails if rec == "right" else [a, "A", q] + tails
+    rules = [("S", [["A"]] if rng.random() < 0.6 else [["A", "S"], ["A"]] if False else [["A"]]),
+             ("A", [body, [b]])]
+    for i, x in enumerate(tails):
+        alts = [[]]
+        if rng.random() < 0.35:
+            alts.append([[m, n, q][i]])
+        rules.append((x, alts))
+    return G(rules, 5, shape="nullable-tail")
 
 
 def annotate(rng, g):
